@@ -95,22 +95,55 @@ class LogModel(BaseModel):
         return None
 
 
-def init_params(fn, fid, path=None):
-    """Path whose parameter locals are opaque symbols named after the source parameters."""
+def init_params(fn, fid, path=None, presets=None):
+    """Path whose parameter locals are opaque symbols named after the source parameters (or the given terms)."""
     p = path or S.Path()
     names = fn.names()
     for a in range(1, fn.argc + 1):
         ty = fn.locals[a]["ty"]
         nm = names.get(a, "arg%d" % a)
-        p.locals[(fid, a)] = ("sym", nm)
+        p.locals[(fid, a)] = (presets or {}).get(a, ("sym", nm))
     return p
 
 
-def run_fn(fn, facts, model=None, cut_back_edges=True, **kw):
+def run_fn(fn, facts, model=None, cut_back_edges=True, presets=None, **kw):
     kw.setdefault("desugar", DESUGAR_DEFAULT)
     ex = S.Engine(fn, facts, model or BaseModel(), cut_edges=fn.back_edges() if cut_back_edges else (), **kw)
-    paths = ex.run(0, init_params(fn, ex.fid))
+    paths = ex.run(0, init_params(fn, ex.fid, presets=presets))
     return ex, paths
+
+
+def caller_view(caller, callee, call_rx, pick=None):
+    """{parameter index of callee: term} naming each parameter of a private helper after what one call site of `caller` passes
+    for it, when that is a plain path over the caller's own parameters (`x`, `&x.f`, `&*x.f.g`): the helper is then analysed
+    in the vocabulary of its caller, whatever its own signature looks like (a `&T` parameter split into two field borrows,
+    a renamed parameter).  `pick(call terminator) -> bool` selects the call site."""
+    pv = M.Prov(caller)
+
+    def conv(e):
+        if e[0] == "arg":
+            return ("sym", e[2])
+        if e[0] in ("ref", "deref"):
+            return conv(e[1])
+        if e[0] == "call" and len(e[2]) == 1 and re.search(r"Deref>::deref$|DerefMut>::deref_mut$|::as_slice$|::as_str$|AsRef<.*>>::as_ref$|Borrow<.*>>::borrow$", str(e[1])):
+            return conv(e[2][0])
+        if e[0] == "field":
+            b = conv(e[1])
+            return ("field", b, e[2]) if b is not None else None
+        return None
+    for bb, t in caller.calls(call_rx):
+        if pick is not None and not pick(t):
+            continue
+        out = {}
+        for i, a in enumerate(t["args"]):
+            try:
+                v = conv(pv.operand(a))
+            except Exception:
+                v = None
+            if v is not None:
+                out[i + 1] = v
+        return out
+    return {}
 
 
 def ret_paths(paths):
@@ -255,14 +288,14 @@ def cache_foundation(ctx):
 COMPILED_WRITERS = {
     # (type, field): functions that may assign / mutably borrow it, with the reason.  Everything else only reads the compiled
     # scanner: "tidying", "pruning" or patching a compiled automaton after the pipeline produced it is a change of the language.
-    ("CompiledDfa", "states"): (r"Minimizer::(add_representative_state|update_transitions)$|CompiledDfa as std::convert::From<", "filled by the conversions and the minimizer's reconstruction"),
-    ("CompiledDfa", "end_states"): (r"Minimizer::add_representative_state$|CompiledDfa as std::convert::From<", "as above"),
-    ("CompiledDfa", "lookaheads"): (r"CompiledDfa::(add_lookahead|try_from_pattern)$", "attached by add_lookahead (kernel.lookahead_wiring); try_from_pattern is the debugging constructor"),
+    ("CompiledDfa", "states"): (r"internal::minimizer::Minimizer::\w+$|CompiledDfa as std::convert::From<", "filled by the conversions and the minimizer's reconstruction (C03.f/g decide what the minimizer writes)"),
+    ("CompiledDfa", "end_states"): (r"internal::minimizer::Minimizer::\w+$|CompiledDfa as std::convert::From<", "as above"),
+    ("CompiledDfa", "lookaheads"): (r"CompiledDfa::(add_lookahead|try_from_pattern|try_from_patterns|find_from)$|CompiledDfa as std::convert::From<", "attached by add_lookahead or directly in try_from_patterns (kernel.lookahead_wiring decides key and value); find_from borrows the entry of the candidate to run its automaton; try_from_pattern is the debugging constructor"),
     ("CompiledDfa", "patterns"): (r"CompiledDfa as std::convert::From<", "set at construction"),
     ("CompiledDfa", "terminal_ids"): (r"CompiledDfa as std::convert::From<", "set at construction"),
     ("CompiledDfa", "current_states"): (r"CompiledDfa::find_from$", "simulation scratch (C12.d)"),
     ("CompiledDfa", "next_states"): (r"CompiledDfa::find_from$", "simulation scratch (C12.d)"),
-    ("StateData", "transitions"): (r"Minimizer::update_transitions$|CompiledDfa as std::convert::From<", "filled by the conversions, renumbered by the minimizer"),
+    ("StateData", "transitions"): (r"internal::minimizer::Minimizer::\w+$|CompiledDfa as std::convert::From<", "filled by the conversions, renumbered by the minimizer"),
     ("CompiledScannerMode", "name"): (r"^$", "never written after construction"),
     ("CompiledScannerMode", "transitions"): (r"^$", "never written after construction"),
     ("CompiledScannerMode", "dfa"): (r"ScannerImpl::peek_from$", "borrow path to the scratch buffers of the attempt"),
